@@ -19,7 +19,35 @@ fn sorted<const N: usize>() -> [u8; N] {
 
 fn is_announce(a: Action) -> bool { matches!(a, Action::Announce) }
 
-fn check_construct<const A: usize, const B: usize>() {
+/// Expected numbers of announced / withdrawn items, from the sets alone.
+fn expected<const A: usize, const B: usize>(a: &[u8; A], b: &[u8; B]) -> (usize, usize) {
+    let mut exp_ann = 0usize;
+    let mut exp_wd = 0usize;
+    let mut j = 0;
+    while j < B { if !contains(a, b[j]) { exp_ann += 1 } j += 1; }
+    j = 0;
+    while j < A { if !contains(b, a[j]) { exp_wd += 1 } j += 1; }
+    (exp_ann, exp_wd)
+}
+
+/// Counts, length and emptiness of the delta are exactly those of the set difference.
+fn construct_counts<const A: usize, const B: usize>() {
+    let a = sorted::<A>();
+    let b = sorted::<B>();
+    let d = StandardDelta::<u8>::construct(a.iter(), b.iter());
+    let (exp_ann, exp_wd) = expected(&a, &b);
+    assert!(d.announce_len == exp_ann, "announce count differs from |new - old|");
+    assert!(d.withdraw_len == exp_wd, "withdraw count differs from |old - new|");
+    assert!(d.items.len() == exp_ann + exp_wd, "number of listed actions differs from the counts");
+    assert!(d.is_empty() == (exp_ann == 0 && exp_wd == 0), "empty exactly when the sets are equal");
+    kani::cover!(exp_ann > 0 && exp_wd > 0, "both_actions");
+    kani::cover!(exp_ann + exp_wd == 0, "equal_sets");
+    kani::cover!(true, "reached");
+    std::mem::forget(d);
+}
+
+/// Every listed action is right, items are strictly sorted, listed actions match the counts.
+fn construct_items<const A: usize, const B: usize>() {
     let a = sorted::<A>();
     let b = sorted::<B>();
     let d = StandardDelta::<u8>::construct(a.iter(), b.iter());
@@ -40,34 +68,31 @@ fn check_construct<const A: usize, const B: usize>() {
         i += 1;
     }
     assert!(ann == d.announce_len && wd == d.withdraw_len, "counts do not match the listed actions");
-    // completeness: every difference is listed
-    let mut exp_ann = 0usize;
-    let mut exp_wd = 0usize;
-    let mut j = 0;
-    while j < B { if !contains(&a, b[j]) { exp_ann += 1 } j += 1; }
-    j = 0;
-    while j < A { if !contains(&b, a[j]) { exp_wd += 1 } j += 1; }
-    assert!(exp_ann == ann && exp_wd == wd, "a changed item is missing from the delta");
-    // empty exactly when the sets are equal
-    assert!(d.is_empty() == (exp_ann == 0 && exp_wd == 0));
-    kani::cover!(ann > 0 && wd > 0, "both_actions");
-    kani::cover!(d.is_empty(), "empty_delta");
+    kani::cover!(true, "reached");
     std::mem::forget(d);
 }
 
-fn same(m: &StandardDelta<u8>, d: &StandardDelta<u8>) {
-    assert!(m.items.len() == d.items.len(), "merged delta has a different number of actions");
-    let mut i = 0;
-    while i < m.items.len() {
-        assert!(m.items[i].0 == d.items[i].0, "merged delta lists a different item");
-        assert!(is_announce(m.items[i].1) == is_announce(d.items[i].1), "merged delta has a different action");
-        i += 1;
-    }
-    assert!(m.announce_len == d.announce_len && m.withdraw_len == d.withdraw_len,
-            "merged delta counts differ");
+/// merge(construct(a,b), construct(b,c)) has the counts and length of construct(a,c).
+fn merge_counts<const A: usize, const B: usize, const C: usize>() {
+    let a = sorted::<A>();
+    let b = sorted::<B>();
+    let c = sorted::<C>();
+    let d1 = StandardDelta::<u8>::construct(a.iter(), b.iter());
+    let d2 = StandardDelta::<u8>::construct(b.iter(), c.iter());
+    let m = StandardDelta::<u8>::merge(&d1, &d2);
+    let (exp_ann, exp_wd) = expected(&a, &c);
+    assert!(m.announce_len == exp_ann, "merged announce count differs from the direct delta");
+    assert!(m.withdraw_len == exp_wd, "merged withdraw count differs from the direct delta");
+    assert!(m.items.len() == exp_ann + exp_wd, "merged delta lists a different number of actions");
+    kani::cover!(d1.items.len() > 0 && d2.items.len() > 0 && m.items.len() == 0, "changes_cancel");
+    kani::cover!(true, "reached");
+    std::mem::forget(d1);
+    std::mem::forget(d2);
+    std::mem::forget(m);
 }
 
-fn check_merge<const A: usize, const B: usize, const C: usize>() {
+/// merge(construct(a,b), construct(b,c)) equals construct(a,c) item by item.
+fn merge_items<const A: usize, const B: usize, const C: usize>() {
     let a = sorted::<A>();
     let b = sorted::<B>();
     let c = sorted::<C>();
@@ -75,44 +100,59 @@ fn check_merge<const A: usize, const B: usize, const C: usize>() {
     let d2 = StandardDelta::<u8>::construct(b.iter(), c.iter());
     let m = StandardDelta::<u8>::merge(&d1, &d2);
     let d = StandardDelta::<u8>::construct(a.iter(), c.iter());
-    same(&m, &d);
-    kani::cover!(m.items.len() > 0, "nonempty_merge");
-    kani::cover!(d1.items.len() > 0 && d2.items.len() > 0 && m.items.len() == 0, "changes_cancel");
+    assert!(m.items.len() == d.items.len(), "merged delta has a different number of actions");
+    let mut i = 0;
+    while i < m.items.len() {
+        assert!(m.items[i].0 == d.items[i].0, "merged delta lists a different item");
+        assert!(is_announce(m.items[i].1) == is_announce(d.items[i].1), "merged delta has a different action");
+        i += 1;
+    }
+    kani::cover!(true, "reached");
     std::mem::forget(d1);
     std::mem::forget(d2);
     std::mem::forget(m);
     std::mem::forget(d);
 }
 
-macro_rules! construct_harness {
-    ($name:ident, $a:expr, $b:expr, $u:expr) => {
+macro_rules! h2 {
+    ($name:ident, $f:ident, $a:expr, $b:expr, $u:expr) => {
         #[kani::proof]
         #[kani::unwind($u)]
-        fn $name() { check_construct::<$a, $b>() }
+        fn $name() { $f::<$a, $b>() }
     };
 }
 
-macro_rules! merge_harness {
-    ($name:ident, $a:expr, $b:expr, $c:expr, $u:expr) => {
+macro_rules! h3 {
+    ($name:ident, $f:ident, $a:expr, $b:expr, $c:expr, $u:expr) => {
         #[kani::proof]
         #[kani::unwind($u)]
-        fn $name() { check_merge::<$a, $b, $c>() }
+        fn $name() { $f::<$a, $b, $c>() }
     };
 }
 
-construct_harness!(c11_construct_0_1, 0, 1, 4);
-construct_harness!(c11_construct_1_0, 1, 0, 4);
-construct_harness!(c11_construct_1_1, 1, 1, 5);
-construct_harness!(c11_construct_2_1, 2, 1, 6);
-construct_harness!(c11_construct_1_2, 1, 2, 6);
-construct_harness!(c11_construct_2_2, 2, 2, 7);
-construct_harness!(c11_construct_3_2, 3, 2, 8);
-construct_harness!(c11_construct_2_3, 2, 3, 8);
-construct_harness!(c11_construct_3_3, 3, 3, 9);
+h2!(c11_counts_0_1, construct_counts, 0, 1, 4);
+h2!(c11_counts_1_0, construct_counts, 1, 0, 4);
+h2!(c11_counts_1_1, construct_counts, 1, 1, 5);
+h2!(c11_counts_2_1, construct_counts, 2, 1, 6);
+h2!(c11_counts_1_2, construct_counts, 1, 2, 6);
+h2!(c11_counts_2_2, construct_counts, 2, 2, 6);
+h2!(c11_counts_3_2, construct_counts, 3, 2, 8);
+h2!(c11_counts_2_3, construct_counts, 2, 3, 8);
+h2!(c11_counts_3_3, construct_counts, 3, 3, 9);
+h2!(c11_items_0_1, construct_items, 0, 1, 4);
+h2!(c11_items_1_0, construct_items, 1, 0, 4);
+h2!(c11_items_1_1, construct_items, 1, 1, 5);
+h2!(c11_items_2_1, construct_items, 2, 1, 6);
+h2!(c11_items_1_2, construct_items, 1, 2, 6);
+h2!(c11_items_2_2, construct_items, 2, 2, 7);
 
-merge_harness!(c12_merge_1_1_1, 1, 1, 1, 5);
-merge_harness!(c12_merge_1_0_1, 1, 0, 1, 5);
-merge_harness!(c12_merge_0_1_0, 0, 1, 0, 5);
-merge_harness!(c12_merge_2_1_2, 2, 1, 2, 7);
-merge_harness!(c12_merge_1_2_1, 1, 2, 1, 7);
-merge_harness!(c12_merge_2_2_2, 2, 2, 2, 7);
+h3!(c12_counts_1_1_1, merge_counts, 1, 1, 1, 5);
+h3!(c12_counts_1_0_1, merge_counts, 1, 0, 1, 5);
+h3!(c12_counts_0_1_0, merge_counts, 0, 1, 0, 5);
+h3!(c12_counts_2_1_2, merge_counts, 2, 1, 2, 7);
+h3!(c12_counts_1_2_1, merge_counts, 1, 2, 1, 7);
+h3!(c12_counts_2_2_2, merge_counts, 2, 2, 2, 7);
+h3!(c12_items_1_1_1, merge_items, 1, 1, 1, 5);
+h3!(c12_items_1_0_1, merge_items, 1, 0, 1, 5);
+h3!(c12_items_0_1_0, merge_items, 0, 1, 0, 5);
+h3!(c12_items_2_1_2, merge_items, 2, 1, 2, 7);
